@@ -100,6 +100,38 @@ def run(chk):
                 kw[f] = rng.randint(0, w)
         one(kw, False)
 
+    # the same packet object encoded again after fields were assigned (packets are mutable objects)
+    for rep in range(chk.pick(300, 4000)):
+        scp = rng.random() < 0.7
+        kw = dict(reply_expected=rng.random() < 0.5, data=bytes(rng.randrange(256) for _ in range(rng.randint(0, 6))))
+        for f, w in WIDTHS.items():
+            if scp or f not in ("cmd_rc", "seq"):
+                kw[f] = rng.randint(0, w)
+        if scp:
+            kw.update(arg1=rng.choice((None, 0, 5, 0xFFFFFFFF)), arg2=None, arg3=None)
+            if kw["arg1"] is not None and rng.random() < 0.5:
+                kw["arg2"] = rng.randrange(1 << 32)
+        p = (SCPPacket if scp else SDPPacket)(**kw)
+        for step in range(rng.randint(2, 4)):
+            b = p.bytestring
+            evs.append(["scp_enc" if scp else "sdp_enc", rec_of(p, scp), list(b)])
+            fields = [f for f in WIDTHS if scp or f not in ("cmd_rc", "seq")] + ["data", "reply_expected"]
+            if scp:
+                fields += ["arg1", "arg2", "arg3"]
+            f = rng.choice(fields)
+            if f == "data":
+                p.data = bytes(rng.randrange(256) for _ in range(rng.randint(0, 6)))
+            elif f == "reply_expected":
+                p.reply_expected = not p.reply_expected
+            elif f in ("arg1", "arg2", "arg3"):
+                # keep the present arguments a prefix
+                if f == "arg1" or (f == "arg2" and p.arg1 is not None) or (f == "arg3" and p.arg2 is not None):
+                    if getattr(p, f) is not None or rng.random() < 0.7:
+                        setattr(p, f, rng.choice((0, 1, 0x80000000, rng.randrange(1 << 32))))
+            else:
+                setattr(p, f, rng.randint(0, WIDTHS[f]))
+        chk.note_case(("re-encode", scp, sorted(kw.items(), key=str)))
+
     traces = [dict(ev=evs[i:i + 200]) for i in range(0, len(evs), 200)]
     chk.rule = ("every header field swept over its full width (16-bit fields: both ends, equal-byte values and random "
                 "values) with all other fields all-zeros and all-ones, SDP and SCP; 0-3 arguments x payload lengths "
